@@ -797,14 +797,18 @@ def cash_large_level(ctx: Ctx) -> None:
             z = input - target
             return -(z.mean(0) - z.std(0, unbiased=False))
 
-    dtype = torch.float64
-    base = torch.tensor([[0.0, 3.0, 8.0, 1.0, 5.0, 2.0, 7.0, 4.0], [1.0, 1.0, 2.0, 6.0, 0.0, 0.0, 3.0, 3.0]], dtype=dtype).t()     # (8, 2)
-    for level, scale in ((1e6, 1.0), (1e3, 1e-3), (-1e6, 1.0), (1e9, 16.0)):
-        X = level + scale * base
-        cases = [("user MeanLoss", MeanLoss(), X.mean(0)), ("user MeanStdLoss", MeanStdLoss(), X.mean(0) - X.std(0, unbiased=False))]
+    base64 = torch.tensor([[0.0, 3.0, 8.0, 1.0, 5.0, 2.0, 7.0, 4.0], [1.0, 1.0, 2.0, 6.0, 0.0, 0.0, 3.0, 3.0]], dtype=torch.float64).t()     # (8, 2)
+    # (in SINGLE precision - the library's default - a level of a few tens is already "large": one unit in the last place of 32 is
+    #  3.8e-6, above the absolute precision 1e-6 the search asks for by default; the amount is then right to the resolution of the dtype)
+    for level, scale, dtype in ((1e6, 1.0, torch.float64), (1e3, 1e-3, torch.float64), (-1e6, 1.0, torch.float64), (1e9, 16.0, torch.float64),
+                                (32.0, 1.0, torch.float32), (1000.0, 1.0, torch.float32), (-250.0, 0.5, torch.float32)):
+        X64 = level + scale * base64
+        X = X64.to(dtype)
+        res = 0.0 if dtype == torch.float64 else 16 * torch.finfo(dtype).eps * (abs(level) + 8 * scale)
+        cases = [("user MeanLoss", MeanLoss(), X64.mean(0)), ("user MeanStdLoss", MeanStdLoss(), X64.mean(0) - X64.std(0, unbiased=False))]
         if level > 0:
-            cases.append(("IsoelasticLoss(0.5)", nn.IsoelasticLoss(0.5), X.sqrt().mean(0).square()))
-            cases.append(("IsoelasticLoss(1)", nn.IsoelasticLoss(1.0), X.log().mean(0).exp()))
+            cases.append(("IsoelasticLoss(0.5)", nn.IsoelasticLoss(0.5), X64.sqrt().mean(0).square()))
+            cases.append(("IsoelasticLoss(1)", nn.IsoelasticLoss(1.0), X64.log().mean(0).exp()))
         for name, crit, want in cases:
             for mode, call, w in (("one sample", lambda: crit.cash(X[:, 0]), want[0]), ("two columns", lambda: crit.cash(X), want)):
                 ctx.count(n=1)
@@ -813,7 +817,10 @@ def cash_large_level(ctx: Ctx) -> None:
                 except Exception as e:
                     ctx.violation(f"cash:{name}:large-level:raises", f"{name}.cash raised {type(e).__name__} on a sample of level {level} and spread {8 * scale} ({mode})", {"error": repr(e)[:200]})
                     continue
-                if got.shape != w.shape or not bool(((got - w).abs() <= 2e-5 * 8 * scale + 1e-9 * abs(level)).all()):
+                if got.dtype != dtype:
+                    ctx.violation(f"cash:{name}:large-level:dtype", f"{name}.cash of a {dtype} sample is {got.dtype}", {"level": level})
+                    continue
+                if got.shape != w.shape or not bool(((got.double() - w).abs() <= 2e-5 * 8 * scale + 1e-9 * abs(level) + res).all()):
                     ctx.violation(f"cash:{name}:large-level", f"{name}.cash of a sample of level {level} and spread {8 * scale} is not its certainty equivalent ({mode})",
                                   {"level": level, "spread": 8 * scale, "expected": w.tolist(), "observed": got.tolist(), "worst": X.min(0).values.tolist()})
 
